@@ -17,8 +17,11 @@ func findFeatures(featureNames []string) ([]Feature, error) {
 	required := make(map[string]Feature)
 	for _, name := range featureNames {
 		if name == "all" {
-			required = defaultFeatures
-			break
+			// keep validating the remaining names: "all+bogus" is as unknown as "bogus+all"
+			for n, f := range defaultFeatures {
+				required[n] = f
+			}
+			continue
 		}
 
 		feat, ok := defaultFeatures[name]
